@@ -106,3 +106,5 @@ var properties = map[string]*Property{
 		NotDecided: "tree round trip, exit statuses.",
 	},
 }
+
+func jsonMarshalIndent(v any) ([]byte, error) { return json.MarshalIndent(v, "", " ") }
